@@ -227,7 +227,8 @@ example : ((Pair.stimRun (Pair.init pcfg pcfg [7, 8] [9, 10]) hhist).map (fun q 
 
 open Penguin.WakerN Penguin.Lemmas.WakerN in
 /-- For every scenario (any initial credit = the window the peer advertised, any number of writer
-    threads and polls, any number of `acknowledge(n)` / close threads) and every interleaving of the
+    threads and polls, any number of `acknowledge(n)` / close threads, any number of `do_shutdown()`
+    calls through other handles) and every interleaving of the
     atomic operations: every successful write (`Ready(Some(()))`) is exactly one `Push` handed to the
     task; the credit left plus the successful writes plus the units held by writers whose `Push` is
     their next operation is exactly the window plus the credit returned by acknowledgements so far — no
@@ -250,7 +251,7 @@ theorem one_write_one_credit_under_concurrency (sc : WakerN.Scenario) (ls : List
     no credit left (writer 1's first `compare_exchange` loses against writer 0's, it waits, is woken by
     the acknowledgement's arrival in its re-check). -/
 example :
-    let s := WakerN.run ⟨1, [1, 1], [.ack 1]⟩ [.writer 0, .writer 1, .writer 0, .writer 1, .writer 0, .writer 1,
+    let s := WakerN.run ⟨1, [1, 1], [.ack 1], 0⟩ [.writer 0, .writer 1, .writer 0, .writer 1, .writer 0, .writer 1,
       .writer 0, .writer 1, .writer 1, .actor 0, .writer 1, .writer 1, .writer 1, .writer 1, .actor 0]
     WakerN.allWritersFinished s = true ∧ WakerN.totalSome s = 2 ∧ WakerN.totalSent s = 2 ∧ s.credit = 0 ∧
       s.grants = 1 := by
